@@ -111,6 +111,26 @@ def _replay_record(rec):
             Bc = dense_from_mats(mats, n)
             if not np.allclose(Bc, Bexp, rtol=1e-9, atol=1e-9):
                 bad.append(("C10_CompactIsBFGS", {"B": Bc.tolist()}))
+    # the same history on another scale (x and g multiplied by a power of two: every product, the curvature
+    # test and theta = y.y/s.y are exactly covariant, B is invariant)
+    for sig in (2.0 ** -30, 2.0 ** 20):
+        m2 = LBFGSB_MATRICES(n)
+        X2, G2 = deque(), deque()
+        for h in rec["hist"]:
+            x, g = sig * np.array(h["x"], float), sig * np.array(h["g"], float)
+            if h["op"] == "init":
+                X2.append(x)
+                G2.append(g)
+            elif h["op"] == "cand":
+                m2 = update_lbfgs_matrices(x.copy(), g, X2, G2, maxcor, m2, False)
+            else:
+                X2, G2, m2 = deque([X2[-1]]), deque([G2[-1]]), LBFGSB_MATRICES(n)
+        if len(X2) != len(eX) or any(not np.array_equal(a, sig * b) for a, b in zip(X2, eX)):
+            bad.append(("C10_ScaleCovariant", {"scale": sig, "X": [a.tolist() for a in X2]}))
+        elif rec["B"] and rec["hist"][-1]["op"] != "reset":
+            Bc = dense_from_mats(m2, n)
+            if not np.allclose(Bc, Bexp, rtol=1e-9, atol=1e-9):
+                bad.append(("C10_ScaleCovariant", {"scale": sig, "B": Bc.tolist(), "expected": Bexp.tolist()}))
     sk = np.atleast_2d(np.diff(np.array(X), axis=0))
     yk = np.atleast_2d(np.diff(np.array(G), axis=0))
     if len(X) == 1:
